@@ -330,6 +330,18 @@ class SR:
     def __pos__(self):
         return self
 
+    def __mod__(self, o):
+        return _e_mod(self, o)
+
+    def __rmod__(self, o):
+        return _e_mod(o, self)
+
+    def __floordiv__(self, o):
+        return _e_floordiv(self, o)
+
+    def __rfloordiv__(self, o):
+        return _e_floordiv(o, self)
+
     def __abs__(self):
         return SR(z3.If(self.t >= 0, self.t, -self.t), self.nan)
 
@@ -649,6 +661,37 @@ def _e_div(a, b):
     return a / b
 
 
+def _e_floor(a):
+    if isinstance(a, SR):
+        return SR(z3.ToReal(z3.ToInt(a.t)), a.nan)
+    return np.floor(a)
+
+
+def _e_ceil(a):
+    if isinstance(a, SR):
+        return SR(-z3.ToReal(z3.ToInt(-a.t)), a.nan)
+    return np.ceil(a)
+
+
+def _e_trunc(a):
+    if isinstance(a, SR):
+        return SR(z3.If(a.t >= 0, z3.ToReal(z3.ToInt(a.t)), -z3.ToReal(z3.ToInt(-a.t))), a.nan)
+    return np.trunc(a)
+
+
+def _e_floordiv(a, b):
+    if isinstance(a, SR) or isinstance(b, SR):
+        return _e_floor(lift(a) / lift(b))
+    return np.floor_divide(a, b)
+
+
+def _e_mod(a, b):
+    """numpy / Python remainder: a - b * floor(a / b) (sign of the divisor)"""
+    if isinstance(a, SR) or isinstance(b, SR):
+        return lift(a) - lift(b) * _e_floor(lift(a) / lift(b))
+    return np.remainder(a, b)
+
+
 UFUNC_IMPL = {
     np.add: (operator.add, 2), np.subtract: (operator.sub, 2), np.multiply: (operator.mul, 2),
     np.true_divide: (_e_div, 2), np.negative: (operator.neg, 1), np.positive: (operator.pos, 1),
@@ -663,6 +706,8 @@ UFUNC_IMPL = {
     np.exp: (_m1("exp"), 1), np.log: (_m1("log"), 1), np.log10: (_m1("log10"), 1),
     np.sqrt: (_m1("sqrt"), 1), np.cos: (_m1("cos"), 1), np.sin: (_m1("sin"), 1),
     np.conjugate: (lambda a: a, 1),
+    np.floor: (_e_floor, 1), np.ceil: (_e_ceil, 1), np.trunc: (_e_trunc, 1),
+    np.floor_divide: (_e_floordiv, 2), np.remainder: (_e_mod, 2),
 }
 _PYUF = {}
 
